@@ -150,8 +150,13 @@ func (h *HierarchicalIterator) Next() bool {
 		return false
 	}
 
-	// Remember current key to skip duplicates
+	// Remember current key to skip duplicates. The iterator is valid, so there is a
+	// current key: a nil slice here is the empty key (a source may hand it out as
+	// nil), not "no previous key" - which would make Next stand still for ever
 	currentKey := h.key
+	if currentKey == nil {
+		currentKey = []byte{}
+	}
 
 	// Find the next unique key after the current key
 	return h.findNextUniqueKey(currentKey)
